@@ -54,6 +54,12 @@ struct Driven {
 fn drive(case: &Case, mode: Mode, rec: bool, st: Option<&mut Stats>) -> Driven {
     let cfg = BootCfg { recording: rec && case.rec_from_boot, intercept_emit: case.intercept_emit, input: case.input.clone(), d2: false };
     let mut xs = boot(&cfg);
+    // a word of the host's whose body compiles more code while the program runs: all of it
+    // belongs to the program, however it is driven
+    fn host_compile(xs: &mut Xstate) -> Xresult {
+        xs.compile("424277 424278 +")
+    }
+    xs.defword("zz-host-compile", host_compile).unwrap();
     for h in &case.history {
         // bounded: a shrunk history may loop forever
         xs.set_insn_limit(Some(20_000)).unwrap();
@@ -188,6 +194,12 @@ impl Engine for Drive {
         let n = 3 + rng.below(60);
         let mut g = Gen::new(rng, f, env, "p");
         let (program, _) = g.source(n, &stack);
+        let program = if rng.chance(1, 40) {
+            // the host word somewhere at the top level of the program
+            format!("{} zz-host-compile 7", program)
+        } else {
+            program
+        };
         let insn_limit = *rng.pick(&[50usize, 500, 5000, 5000, 5000]);
         let stack_slack = if rng.chance(1, 4) { Some(rng.below(7)) } else { None };
         let heap_slack = if rng.chance(1, 8) { Some(rng.below(3)) } else { None };
